@@ -1,30 +1,42 @@
 #!/usr/bin/env python3
 """Development aid: re-apply every seeded change to a scratch copy of /repo and list which checks report it.
-usage: sweep_seeds.py [seed-filter...]   (never touches /repo)"""
+usage: sweep_seeds.py [--write] [seed-filter...]   (never touches /repo; three seeds at a time)"""
 import glob, json, os, shutil, subprocess, sys, tempfile
+from concurrent.futures import ThreadPoolExecutor
 V = os.path.dirname(os.path.dirname(os.path.abspath(__file__)))
 PROPS = "C01 C02 C04 C05 C06 C07 C08 C09 C10 C11 C12 C13 C14 C15 C16 C17 C18 C19 C20".split()
 WRITE = "--write" in sys.argv
 flt = [a for a in sys.argv[1:] if a != "--write"]
 missed = []
-for d in sorted(glob.glob(os.path.join(V, "seeded", "*"))):
+
+
+def one(d):
     sid = os.path.basename(d)
-    if flt and not any(x in sid for x in flt):
-        continue
     meta = json.load(open(os.path.join(d, "meta.json")))
     t = tempfile.mkdtemp(prefix="ohg-sweep-")
     try:
         subprocess.check_call(["rsync", "-a", "--exclude", "target", "--exclude", ".git", "/repo/", t + "/repo/"])
         if subprocess.run(["patch", "-p1", "-s", "-d", t + "/repo", "-i", os.path.join(d, "patch.diff")], capture_output=True).returncode:
-            print(sid, "patch does not apply"); continue
+            print(sid, "patch does not apply", flush=True)
+            return
         env = dict(os.environ, OHSA_REPO=t + "/repo", OHSA_CACHE=t + "/cache", OHSA_OUT=t + "/out", OHSA_NO_SELFTEST="1")
         hit, und = [], []
+        r = subprocess.run(["python3", os.path.join(V, "ohsa", "check.py"), "ALL"], env=env, capture_output=True, text=True, timeout=3600)
+        rcs = {}
+        for l in r.stdout.splitlines():
+            if l.startswith("@@rc "):
+                _, p_, rc_ = l.split()
+                rcs[p_] = int(rc_)
+        if not rcs:
+            print(sid, "check failed to run:", (r.stdout + r.stderr)[-300:], flush=True)
+            return
         for p in PROPS:
-            r = subprocess.run(["python3", os.path.join(V, "ohsa", "check.py"), p], env=env, capture_output=True, text=True, timeout=1800)
-            if r.returncode == 1: hit.append(p)
-            elif r.returncode != 0: und.append(p)
+            if rcs.get(p) == 1:
+                hit.append(p)
+            elif rcs.get(p, 0) != 0:
+                und.append(p)
         own = meta["property"] in hit
-        print(f"{sid}: VIOLATION in {hit}" + (f"  not-decided in {und}" if und else "") + ("" if own else f"   (own property {meta['property']} silent)"))
+        print(f"{sid}: VIOLATION in {hit}" + (f"  not-decided in {und}" if und else "") + ("" if own else f"   (own property {meta['property']} silent)"), flush=True)
         if not hit:
             missed.append(sid)
         if WRITE:
@@ -32,4 +44,10 @@ for d in sorted(glob.glob(os.path.join(V, "seeded", "*"))):
             json.dump(meta, open(os.path.join(d, "meta.json"), "w"), indent=1)
     finally:
         shutil.rmtree(t, ignore_errors=True)
-print("MISSED:", missed)
+
+
+dirs = [d for d in sorted(glob.glob(os.path.join(V, "seeded", "*")))
+        if not flt or any(x in os.path.basename(d) for x in flt)]
+with ThreadPoolExecutor(max_workers=int(os.environ.get("SWEEP_JOBS", "3"))) as ex:
+    list(ex.map(one, dirs))
+print("MISSED:", sorted(missed))
